@@ -4,17 +4,19 @@
 (* input of at most MaxIn units over Names \cup {"X"} ("X" is undeclared).       *)
 EXTENDS Hierarchy, Json
 
-CONSTANTS NMin, NMax, MaxIn, Names, EmitCases, Edi, EmitMod
+CONSTANTS NMin, NMax, MaxIn, Names, EmitCases, Edi, EmitMod,
+          Shapes   \* set of record shapes non-group declarations may have: subset of {"name", "rows2", "hf"}
 
 VARIABLES H, in, st
 vars == <<H, in, st>>
 
-Hier(n) == { h \in [n : {n}, edi : {Edi}, par : [1..n -> 0..(n - 1)], grp : [1..n -> BOOLEAN], nm : [1..n -> Names],
+Hier(n) == { h \in [n : {n}, edi : {Edi}, par : [1..n -> 0..(n - 1)], grp : [1..n -> BOOLEAN], nm : [1..n -> Names], mk : [1..n -> Shapes],
                     mn : [1..n -> 0..2], mx : [1..n -> {1, 2, INF}], tgt : 1..n] :
              /\ WellFormed(h)
-             /\ \A i \in 1..n : h.grp[i] => h.nm[i] = CHOOSE x \in Names : TRUE }   \* a group's name is irrelevant
+             /\ \A i \in 1..n : h.grp[i] => (h.nm[i] = (CHOOSE x \in Names : TRUE) /\ h.mk[i] = "name")   \* irrelevant for a group
+             /\ \A i \in 1..n : h.mk[i] = "rows2" => h.nm[i] = (CHOOSE x \in Names : TRUE) }            \* a wildcard has no name
 
-Inputs == UNION {[1..k -> Names \cup {"X"}] : k \in 0..MaxIn}
+Inputs == UNION {[1..k -> Names \cup {"X"} \cup (IF "hf" \in Shapes THEN {FooterName} ELSE {})] : k \in 0..MaxIn}
 
 Init == /\ H \in UNION {Hier(n) : n \in NMin..NMax}
         /\ in \in Inputs
@@ -35,9 +37,10 @@ Agree == st.status # "run" => (st.out = R.out /\ st.status = R.status /\ st.errd
 \* the panic guards of the code are unreachable (C03)
 Guards == st.panic = ""
 \* no unit is consumed twice; at EOF every unit has been consumed (C05: nothing dropped, nothing twice)
-Units == {st.nodes[i].u : i \in 1..Len(st.nodes)} \ {0}
+Span(i) == IF st.nodes[i].n = 0 THEN {} ELSE st.nodes[i].u..(st.nodes[i].u + st.nodes[i].n - 1)
+Units == UNION {Span(i) : i \in 1..Len(st.nodes)}
 NoDropNoDup ==
-  /\ \A i, j \in 1..Len(st.nodes) : (i # j /\ st.nodes[i].u # 0) => st.nodes[i].u # st.nodes[j].u
+  /\ \A i, j \in 1..Len(st.nodes) : i # j => Span(i) \cap Span(j) = {}
   /\ Units = 1..(st.pos - 1)
   /\ (st.status = "eof" => st.pos = Len(in) + 1)
 \* stack discipline: bottom is the root; every frame above is a child declaration of the frame below
